@@ -17,7 +17,8 @@ EXTENDS MacroRef, Json, CSV, IOUtils
 CONSTANTS Families,    \* family ids to enumerate
           DynLen,      \* number of free lines of the dynamic family
           CdLen,       \* number of free lines of the command-line family
-          SizeFo, SizeVa, SizeCh, SizeNe   \* body lengths (items) in the static families fo, va, ch, ne
+          SizeFo, SizeVa, SizeCh, SizeNe,  \* body lengths (items) in the static families fo, va, ch, ne
+          SizeSt                           \* 1: smaller item sets in st / ne (quick), 2: all
 
 VARIABLES fam, d0, prog
 vars == <<fam, d0, prog, defs, pushStack, out>>
@@ -63,8 +64,7 @@ Dyn(lines, texts, inits) == [slots |-> <<>>, texts |-> texts, free |-> lines, d0
 \*     unbalanced parentheses and self reference)
 FoTexts == << <<"F","(","a",")">>, <<"F","(","O",")">>, <<"F","(","F","(","a",")",")">>, <<"O">>,
               <<"F","(","F",")","(","a",")">>, <<"F","(",")">>, <<"F","(","(","a",",","a",")",")">>,
-              <<"O","(","a",")">>, <<"F","a">>, <<"F","(","a",")","O">>,
-              <<"F","(","\"O,F\"",")">>, <<"F","(","'F'",")","F">> >>
+              <<"O","(","a",")">>, <<"F","(","\"O,F\"",")">>, <<"F","(","'F'",")","F","a">> >>
 FoFam == Static(<< Fn("F", <<"x">>, One({"a", "x", "O", "F", "(", ")", "#", "##", ","}), 3),
                    Obj("O", One({"a", "O", "F", "(", ")", "##", ","}), SizeFo) >>, FoTexts)
 
@@ -74,7 +74,8 @@ StTexts == << <<"F","(","a",",","b",")">>, <<"F","(","O",",","O",")">>, <<"F","(
               <<"F","(","\"O,F\"",",","'F'",")">>, <<"F","(","F","(","a",",","b",")",",","O",")">>,
               <<"F","(","1",",","2",")">>, <<"F","(","a","+","O",",","\"a\\n\"",")">>,
               <<"F","(","F","(",",",")",",","1",")">> >>
-StFam == Static(<< Obj("O", {<<>>, <<"a">>, <<"1">>, <<"a", "+", "1">>, <<"O">>, <<"(", "1", ",", "2", ")">>}, 1),
+StFam == Static(<< Obj("O", IF SizeSt > 1 THEN {<<>>, <<"a">>, <<"1">>, <<"a", "+", "1">>, <<"O">>, <<"(", "1", ",", "2", ")">>}
+                                         ELSE {<<>>, <<"1">>, <<"O">>, <<"(", "1", ",", "2", ")">>}, 1),
                    Fn("F", <<"x", "y">>, {<<"x">>, <<"y">>, <<"#", "x">>, <<"#", "y">>, <<"x", "##", "y">>, <<"a", "##", "x">>,
                                           <<"y", "##", "1">>, <<"a">>, <<"O">>, <<",">>, <<"+">>}, 3) >>, StTexts)
 
@@ -84,7 +85,7 @@ VaTexts == << <<"H","(","a",")">>, <<"H","(","a",",",")">>, <<"H","(","a",",","b
               <<"H","(",",",")">>, <<"H","(","O",",","O",",","\"O,F\"",")">>, <<"H","(","a",",","(",")",")">>,
               <<"G","(",")">>, <<"G","(","a",")">>, <<"G","(","a",",","O",")">>, <<"G","(","H","(","a",",","b",")",")">>,
               <<"H","(","G","(",")",",","G","(","1",")",")">> >>
-VaFam == Static(<< Obj("O", {<<>>, <<"1">>, <<"a", ",", "b">>}, 1),
+VaFam == Static(<< Obj("O", IF SizeVa > 2 THEN {<<>>, <<"1">>, <<"a", ",", "b">>} ELSE {<<"1">>, <<"a", ",", "b">>}, 1),
                    Va("G", <<>>, {<<"__VA_ARGS__">>, <<"#", "__VA_ARGS__">>, <<"__VA_OPT__", "(", "a", ")">>, <<"a">>,
                                   <<"[", "__VA_ARGS__", "]">>}, 2),
                    Va("H", <<"x">>, {<<"x">>, <<"__VA_ARGS__">>, <<"#", "__VA_ARGS__">>, <<",", "##", "__VA_ARGS__">>,
@@ -105,8 +106,9 @@ NeTexts == << <<"F","(","a",")">>, <<"G","(","a",",","b",")">>, <<"F","(","G","(
               <<"G","(",",",")">>, <<"F","(",")">>, <<"F","(","G","(","F","(","1",")",",","2",")",")">> >>
 NeFam == Static(<< Fn("F", <<"x">>, {<<"x">>, <<"a">>, <<"(", "x", ")">>, <<"G", "(", "x", ",", "a", ")">>,
                                      <<"G", "(", "a", ",", "x", ")">>, <<"F", "(", "x", ")">>, <<"G">>}, 2),
-                   Fn("G", <<"x", "y">>, {<<"x">>, <<"y">>, <<"+">>, <<",">>, <<"F", "(", "x", ")">>, <<"F", "(", "y", ")">>,
-                                          <<"G", "(", "y", ",", "x", ")">>, <<"F">>, <<"[", "x", "]">>}, SizeNe) >>, NeTexts)
+                   Fn("G", <<"x", "y">>, {<<"x">>, <<"y">>, <<",">>, <<"F", "(", "x", ")">>, <<"F", "(", "y", ")">>,
+                                          <<"G", "(", "y", ",", "x", ")">>, <<"F">>, <<"[", "x", "]">>}
+                                         \cup (IF SizeSt > 1 THEN {<<"+">>} ELSE {}), SizeNe) >>, NeTexts)
 
 \* dy: #undef, redefinition, push_macro / pop_macro between uses
 DyLines == {DefLine("O", FALSE, <<>>, FALSE, b) : b \in {<<"1">>, <<"2">>, <<"O", "+", "1">>}}
@@ -125,12 +127,12 @@ CdFam == Dyn(DyLines, DyTexts, {D0(<<"1">>, <<"x", "+", "O">>), D0(<<"O", "+", "
 Fam == [ fo |-> FoFam, st |-> StFam, va |-> VaFam, ch |-> ChFam, ne |-> NeFam, dy |-> DyFam, cd |-> CdFam ]
 FreeLen(f) == IF f = "cd" THEN CdLen ELSE DynLen
 
-FamLen(f) == IF Fam[f].free # {} THEN FreeLen(f) + Len(Fam[f].texts) ELSE Len(Fam[f].slots) + Len(Fam[f].texts)
-LinesAt(f, k) ==
-  LET n == IF Fam[f].free # {} THEN FreeLen(f) ELSE Len(Fam[f].slots) IN
-  IF k > n THEN {TextLine(Fam[f].texts[k - n])}
-  ELSE IF Fam[f].free # {} THEN Fam[f].free
-  ELSE Fam[f].slots[k]
+\* static family: one #define per slot, then all its Text lines in one step;
+\* dynamic family: FreeLen free lines, then its Text lines in one step
+NFree(f) == IF Fam[f].free # {} THEN FreeLen(f) ELSE Len(Fam[f].slots)
+FamLen(f) == NFree(f) + Len(Fam[f].texts)
+LinesAt(f, k) == IF Fam[f].free # {} THEN Fam[f].free ELSE Fam[f].slots[k]
+TextLines(f) == [i \in 1..Len(Fam[f].texts) |-> TextLine(Fam[f].texts[i])]
 
 \* ---- the behaviour = the program ---------------------------------------------
 Step(l) ==
@@ -147,10 +149,13 @@ Allowed(l) == l.k = "def" /\ l.m \in DOMAIN defs =>
 Init == /\ fam \in Families /\ prog = <<>>
         /\ d0 \in Fam[fam].d0 /\ MInit(d0)
 
-Next == /\ Len(prog) < FamLen(fam)
-        /\ \E l \in LinesAt(fam, Len(prog) + 1) :
-             Allowed(l) /\ Step(l) /\ prog' = Append(prog, l)
-        /\ UNCHANGED <<fam, d0>>
+Next == \/ /\ Len(prog) < NFree(fam)
+           /\ \E l \in LinesAt(fam, Len(prog) + 1) :
+                Allowed(l) /\ Step(l) /\ prog' = Append(prog, l)
+           /\ UNCHANGED <<fam, d0>>
+        \/ /\ Len(prog) = NFree(fam)
+           /\ TextBlock(Fam[fam].texts) /\ prog' = prog \o TextLines(fam)
+           /\ UNCHANGED <<fam, d0>>
 
 Spec == Init /\ [][Next]_vars
 
